@@ -25,11 +25,16 @@
    (generation g) (bytes of HKDF-Expand-Label are C10's business).
    Ghost fields (no influence on behaviour): [seen] (record numbers accepted by the windows), [got]
    (payloads handed to Read with their record numbers).
+   [failed] freezes a side: the state machine returned an error (sequence-number / epoch / message_seq
+   limits); the partial field updates the code performs before returning are not represented because
+   nothing observes a failed side.
    Deviation (only reachable with records the peer never sent, excluded by the [authentic] premise of
    the theorems that need it): a KeyUpdate whose message_seq is ahead of the expected one is only
    acknowledged (the code also keeps it in the fragment buffer), and a KeyUpdate with the expected
    message_seq under a non-current epoch makes the side [failed] (the code answers with a fatal alert
-   and keeps re-reading the same cached message); handshake/ACK content of PARKED records is ignored. *)
+   and keeps re-reading the same cached message); handshake/ACK content of PARKED records is ignored.
+   The model starts from an established connection (application epoch 3 on both sides, the server's
+   NewSessionTicket flight acknowledged); [config] carries what establishment left behind. *)
 From Coq Require Import List NArith Bool.
 From DtlsV Require Import Lib.Bytes Rec.Window.
 Import ListNotations.
